@@ -93,6 +93,12 @@ CASES = [
                "f(T*U.kelvin, P*U.bar, units=U, warn=False, backend=be), f(T*U.kelvin, P*U.bar, units=U, U=f(units=U, just_return_U=True), warn=False, backend=be))",
          unit="1",
          formula="(f(T, Const(1), warn=False, backend=be), f(T, Const(1), warn=False, backend=be), f(T, P, warn=False, backend=be), f(T, P, warn=False, backend=be))"),
+    # default backend (backend omitted): permittivity and Henry's law give the same closed forms
+    dict(name="default_backend", targets=["chempy.properties.water_permittivity_bradley_pitzer_1979.water_permittivity", "chempy.henry.Henry_H_at_T"],
+         setup="from chempy.properties.water_permittivity_bradley_pitzer_1979 import water_permittivity as f\nfrom chempy.henry import Henry_H_at_T as fh, Henry",
+         vars={"T": (274, 620), "P": (Fraction(1, 2), 900), "H": POS, "Td": (None, None), "T0": (200, 500)},
+         plain="(f(T, P, warn=False), fh(T, H, Td, T0), Henry(H, Td, T0)(T))",
+         formula="(f(T, P, warn=False, backend=be), fh(T, H, Td, T0, backend=be), fh(T, H, Td, T0, backend=be))"),
     dict(name="lg_solubility_ratio", targets=["chempy.properties.gas_sol_electrolytes_schumpe_1993.lg_solubility_ratio"],
          setup="from chempy.properties.gas_sol_electrolytes_schumpe_1993 import lg_solubility_ratio as f, p_gas_rM, p_ion_rM",
          vars={"c1": POS, "c2": POS}, plain="f({'Na+': c1, 'Cl-': c2}, 'O2')",
